@@ -187,6 +187,63 @@ def fuzz_campaign(ctx, bins, cov, workers=16, runs=None):
         shutil.rmtree(work, ignore_errors=True)
 
 
+def miri_sample(ctx, cov, prop_run=None, procs=8, cases=None, sub="hist"):
+    """A sample of short histories under Miri (thorough tiers): uninitialised reads and aliasing
+    violations inside gecs' unsafe code that neither ASan nor the model can see."""
+    from vcommon import ENV, HARNESS
+    prop_run = prop_run or ctx.prop
+    cases = cases or (6 if ctx.tier == "quick" else 30)
+    env = dict(ENV)
+    env["MIRIFLAGS"] = "-Zmiri-disable-isolation -Zmiri-ignore-leaks"
+    env["RUSTFLAGS"] = "--cfg gecs_verif"
+    tdir = os.path.join(HARNESS, "target-miri")
+    b = subprocess.run(["cargo", "+nightly", "miri", "run", "--target-dir", tdir, "--bin", "vh-run", "--", "seed-corpus", "--out", os.path.join(VERIF, ".work", "miri-warm-%d" % os.getpid())],
+                       cwd=HARNESS, env=env, stdout=subprocess.PIPE, stderr=subprocess.STDOUT, text=True)
+    shutil.rmtree(os.path.join(VERIF, ".work", "miri-warm-%d" % os.getpid()), ignore_errors=True)
+    if b.returncode != 0:
+        raise Inconclusive("Miri build / warm-up failed: %s" % b.stdout[-800:])
+    work = os.path.join(VERIF, ".work", "%s-miri-%d" % (ctx.prop, os.getpid()))
+    os.makedirs(work, exist_ok=True)
+    procs_l = []
+    try:
+        for i in range(procs):
+            world = "WOne" if i % 4 == 3 else "WMix"
+            base = os.path.join(work, "m%d" % i)
+            argv = ["cargo", "+nightly", "miri", "run", "--target-dir", tdir, "--bin", "vh-run", "--", sub, "--prop", prop_run, "--world", world, "--cases", str(cases),
+                    "--len", "24" if sub == "hist" else "10", "--seed", str(ctx.sub_seed("miri", i)), "--intensity", "light", "--out", base + ".json", "--fail-out", base + ".ops", "--last-case", base + ".last"]
+            if sub == "c10":
+                argv += ["--max-k", "3"]  # every injected run is a full re-run of the history under Miri
+            procs_l.append((i, world, base, subprocess.Popen(argv, cwd=HARNESS, env=env, stdout=subprocess.PIPE, stderr=subprocess.STDOUT, text=True)))
+        total = 0
+        for i, world, base, pr in procs_l:
+            try:
+                out = pr.communicate(timeout=4 * 3600)[0]
+            except subprocess.TimeoutExpired:
+                pr.kill()
+                raise Inconclusive("Miri sample exceeded its watchdog")
+            for line in out.splitlines():
+                if line.startswith("STATS"):
+                    d = parse_line(line)
+                    total += int(d.get("evaluations", d.get("runs", d.get("cases", "0"))))
+            if pr.returncode == 1 and any(l.startswith("FAIL ") for l in out.splitlines()):
+                for line in out.splitlines():
+                    if line.startswith("FAIL "):
+                        d = parse_line(line)
+                        dst = os.path.join(found_dir(ctx.prop), "miri-%s-%d.ops" % (d.get("sig", "fail"), i))
+                        shutil.copyfile(base + ".ops", dst)
+                        report_failure(ctx, d.get("sig", "?"), dst, "[miri, %s] %s" % (world, d.get("msg", "")))
+            elif pr.returncode != 0:
+                ub = [l for l in out.splitlines() if "Undefined Behavior" in l or l.startswith("error")]
+                dst = os.path.join(found_dir(ctx.prop), "miri-ub-%d.ops" % i)
+                with open(dst, "w") as f:
+                    f.write("# property %s\n# Miri reported: %s\n%s" % (ctx.prop, (ub[:1] or ["process died with status %s" % pr.returncode])[0], open(base + ".last").read() if os.path.exists(base + ".last") else ""))
+                report_failure(ctx, "miri-ub", dst, "[miri, %s] %s" % (world, " | ".join(ub[:3])[:800] or out[-600:]))
+        cov["miri_sample"] = {"processes": procs, "cases": total, "flags": "-Zmiri-disable-isolation -Zmiri-ignore-leaks (Stacked Borrows on)", "max_ops": 24}
+        cov["evaluations"] += total
+    finally:
+        shutil.rmtree(work, ignore_errors=True)
+
+
 def hist_coverage(ctx, agg, nreplays, rule, bins):
     ev = agg["evaluations"]
     labels = {k: {"cases": v, "fraction": round(v / ev, 4) if ev else 0} for k, v in sorted(agg["labels"].items())}
@@ -290,7 +347,12 @@ def check_c07(ctx):
 
 def check_history_fuzz(ctx):
     """History check whose thorough tier adds a libFuzzer / ASan campaign."""
-    check_history(ctx, extra_step=(lambda c, b, cov: fuzz_campaign(c, b, cov)) if ctx.tier == "thorough" else None)
+    def extra(c, b, cov):
+        fuzz_campaign(c, b, cov)
+        if c.prop == "C04":
+            miri_sample(c, cov)
+
+    check_history(ctx, extra_step=extra if ctx.tier == "thorough" else None)
 
 
 HIST_RULES["C17"] = "histories (harness built with feature events) with both creation paths incl. refused create_within_capacity, all four destroy key kinds at both levels, ecs_iter_destroy!, destroys of stale handles, per-archetype and world-level clear_events at arbitrary points, clones; after every step the per-archetype and world-level event iterators are compared (as multisets) with the model's logs and size_hint is checked before every next(); non-trivial = an observation with >= 2 archetypes with non-empty and >= 1 with empty logs, plus a destroy through a dynamic key or ecs_iter_destroy!, plus a clear; distinct = hash of the decoded op list"
@@ -394,6 +456,7 @@ def check_c03(ctx):
     cov["sanitizers"] = ["AddressSanitizer (nightly -Zsanitizer=address, release profile, debug assertions off) on the 'asan' build"]
     if ctx.tier == "thorough":
         fuzz_campaign(ctx, bins, cov)
+        miri_sample(ctx, cov)
     write_evidence(ctx, "exploration", cov, HIST_ASSUMPTIONS + [
         "allowed clean panics on forged probes: 'invalid entity handle', 'invalid entity type', 'invalid entity conversion', debug_assert in from_any_unchecked (DESIGN.md soundness decision 3)",
         "the state after a forged probe is compared with the state before it (full probe suite, representation invariant)"])
@@ -476,6 +539,8 @@ def check_c10(ctx):
         "fixed_scenarios": "with_capacity(2^24 + 1) per archetype panics with 'capacity may not exceed' and builds nothing",
         "regression_replays": nfiles,
     }
+    if ctx.tier == "thorough":
+        miri_sample(ctx, cov, sub="c10", cases=3)
     write_evidence(ctx, "fault_enumeration", cov, HIST_ASSUMPTIONS + ["leaks caused by unwinding are tolerated and counted, double drops are not (DESIGN.md soundness decision 4)",
                                                                       "after a documented overflow panic in destroy the entity may be fully present or fully absent; the model adopts whichever holds"])
 
